@@ -2438,7 +2438,9 @@ impl TypeIdentifier {
         type_consistency: &TypeConsistencyEnforcementQosPolicy,
     ) -> bool {
         match self {
-            TypeIdentifier::TkNone => todo!(),
+            // identifiers this implementation cannot compare come from the network (TypeLookup
+            // reply): they are not assignable, they must not abort the participant
+            TypeIdentifier::TkNone => false,
             TypeIdentifier::TkBoolean => matches!(other, TypeIdentifier::TkBoolean),
             TypeIdentifier::TkByteType => matches!(
                 other,
@@ -2617,9 +2619,9 @@ impl TypeIdentifier {
                 }
                 _ => false,
             },
-            TypeIdentifier::TiPlainMapSmall { map_sdefn: _ } => todo!(),
-            TypeIdentifier::TiPlainMapLarge { map_ldefn: _ } => todo!(),
-            TypeIdentifier::TiStronglyConnectedComponent { sc_component_id: _ } => todo!(),
+            TypeIdentifier::TiPlainMapSmall { map_sdefn: _ } => false,
+            TypeIdentifier::TiPlainMapLarge { map_ldefn: _ } => false,
+            TypeIdentifier::TiStronglyConnectedComponent { sc_component_id: _ } => false,
             TypeIdentifier::EkComplete { .. } => matches!(
                 other,
                 TypeIdentifier::EkComplete { .. }
@@ -2646,7 +2648,7 @@ impl TypeIdentifier {
                     | TypeIdentifier::TkInt64Type
                     | TypeIdentifier::TkUint64Type
             ),
-            TypeIdentifier::Default { extended_type: _ } => todo!(),
+            TypeIdentifier::Default { extended_type: _ } => false,
         }
     }
 }
